@@ -1,14 +1,152 @@
-import Ruint.Model.Codec.Rlp
-import Ruint.Model.Codec.Scale
-import Ruint.Model.Codec.Fixed
-import Ruint.Model.Codec.Der
+import Ruint.Lemmas.Codec.Rlp
+import Ruint.Lemmas.Codec.RlpParity
+import Ruint.Lemmas.Codec.Scale
+import Ruint.Lemmas.Codec.Fixed
+import Ruint.Lemmas.Codec.Der
 import Ruint.Model.Codec.Serde
 import Ruint.Model.Codec.Postgres
-/-! # C16 — codec round trips, advertised lengths, reference encodings (theorems) -/
+/-!
+# C16 — every codec integration round-trips and emits its format's reference encoding
+
+Property theorems only (proofs live in `Lemmas/Codec/*`). Every theorem quantifies over **all** widths `bits`
+and all values `v < 2^bits`; the functions are the ones of `Model/Codec/*` that the correspondence driver
+(`Drv/Codec.lean`) executes against the real integrations. Byte strings are `List ℕ` with entries `< 256`.
+
+Per format: (1) `dec (enc v) = v` (with arbitrary trailing bytes where the decoder tolerates them, and the
+number of bytes consumed), (2) advertised length = number of bytes produced, (3) ruint's encoder (`encImpl`, with
+its fast paths) = the format's definition (`enc`), incl. equality with the codec crate's `u64/u128` encoder.
+Side conditions `byteLen (nbytes bits) ≤ 8`, `nbytes bits < 2^32`… say that `BYTES` fits the format's own
+length field (`usize` / `u32`); they hold for every type that fits in memory.
+-/
 namespace Ruint.C16
 open Ruint Ruint.Codec
 
-/-- `ssz_bytes_len = BYTES`. -/
-theorem ssz_bytes_len (bits : Nat) : Fixed.sszBytesLen bits = nbytes bits := rfl
+/-! ## RLP (alloy-rlp, fastrlp 0.3 / 0.4, parity rlp) -/
+
+/-- the reference encoding: `0x80` for zero, a single byte below `0x80` as itself, otherwise string header
+    (short `0x80+n`, long `0xb7+k` + `k` minimal length bytes) + minimal big-endian bytes. -/
+theorem rlp_reference (v : ℕ) :
+    Rlp.enc v = if v = 0 then [0x80] else if v < 0x80 then [v]
+      else Rlp.strHeader (byteLen v) ++ beTrim v := Rlp.enc_eq v
+
+/-- the minimal big-endian bytes denote `v` and have no leading zero byte. -/
+theorem rlp_payload_minimal (v : ℕ) :
+    beVal (beTrim v) = v ∧ (beTrim v).length = byteLen v ∧ (beTrim v).headD 1 ≠ 0 ∧ IsBytes (beTrim v) :=
+  ⟨beVal_beTrim v, beTrim_length v, beTrim_head_ne_zero v, beTrim_isBytes v⟩
+
+/-- ruint's `Encodable::encode` (LIMBS ∈ {0,1,2} fast paths, `bit_len` match, 55-byte switch) = the reference. -/
+theorem rlp_encode_is_reference (bits v : ℕ) (hv : v < 2 ^ bits) : Rlp.encImpl bits v = Rlp.enc v :=
+  Rlp.encImpl_eq bits v hv
+
+/-- the codec crate's own `u64`/`u128` encoder gives the same bytes (any value a primitive can hold). -/
+theorem rlp_prim_is_reference (v : ℕ) (hv : v < 2 ^ 128) : Rlp.encPrim v = Rlp.enc v :=
+  Rlp.encPrim_eq v (lt_of_lt_of_le hv (by norm_num))
+
+/-- `length()` = number of bytes produced. -/
+theorem rlp_length (v : ℕ) : Rlp.lengthImpl v = (Rlp.enc v).length := Rlp.lengthImpl_eq v
+
+/-- round trip for alloy-rlp / fastrlp, short AND long form, trailing bytes left in the buffer. -/
+theorem rlp_roundtrip (bits v : ℕ) (tail : List ℕ) (hv : v < 2 ^ bits) (hB : byteLen (nbytes bits) ≤ 8) :
+    Rlp.dec bits (Rlp.enc v ++ tail) = .ok (v, (Rlp.enc v).length) := Rlp.dec_enc bits v tail hv hB
+
+/-- round trip for parity `rlp`. -/
+theorem rlp_parity_roundtrip (bits v : ℕ) (tail : List ℕ) (hv : v < 2 ^ bits) (hB : byteLen (nbytes bits) ≤ 8) :
+    Rlp.decParity bits (Rlp.enc v ++ tail) = .ok v := Rlp.decParity_enc bits v tail hv hB
+
+/-! ## SCALE -/
+
+/-- compact form: the four modes and their boundaries `2^6`, `2^14`, `2^30`; big-integer mode prefix
+    `(n−4)·4+3`, `n = byte_len` little-endian bytes denoting `v`, the last one non-zero. -/
+theorem scale_compact_modes (v : ℕ) :
+    (v < 2 ^ 6 → Scale.encCompact v = [4 * v]) ∧
+    (2 ^ 6 ≤ v → v < 2 ^ 14 → Scale.encCompact v = toLE 2 (4 * v + 1)) ∧
+    (2 ^ 14 ≤ v → v < 2 ^ 30 → Scale.encCompact v = toLE 4 (4 * v + 2)) ∧
+    (2 ^ 30 ≤ v → Scale.encCompact v = ((byteLen v - 4) * 4 + 3) :: leTrim v ∧ 4 ≤ byteLen v
+        ∧ (leTrim v).length = byteLen v ∧ leVal (leTrim v) = v ∧ (leTrim v).reverse.headD 1 ≠ 0) :=
+  Scale.encCompact_modes v
+
+/-- compact `size_hint` = exact encoded length (after the fix). -/
+theorem scale_compact_size_hint (v : ℕ) : Scale.sizeHintCompact v = (Scale.encCompact v).length :=
+  Scale.sizeHintCompact_eq v
+
+/-- the pinned tree's hint was wrong (31 vs 7 bytes at `U64(2^40)`) and underflowed at `U512(2^31)`. -/
+theorem scale_compact_size_hint_pinned_defect :
+    Scale.sizeHintCompactPinned 64 (2 ^ 40) = some 31 ∧ (Scale.encCompact (2 ^ 40)).length = 7
+    ∧ Scale.sizeHintCompactPinned 512 (2 ^ 31) = none := Scale.sizeHintCompactPinned_defect
+
+/-- compact round trip at every width up to the 536-bit compact bound. -/
+theorem scale_compact_roundtrip (bits v : ℕ) (tail : List ℕ) (hv : v < 2 ^ bits) (hb : bits ≤ 536) :
+    Scale.decCompact bits (Scale.encCompact v ++ tail) = .ok (v, (Scale.encCompact v).length) :=
+  Scale.decCompact_enc bits v tail hv hb
+
+/-- fixed form: `size_hint` is an upper bound, `max_encoded_len` (after the fix) exact. -/
+theorem scale_fixed_lengths (bits v : ℕ) (hB : nbytes bits < 2 ^ 30) :
+    (Scale.encFixed bits v).length ≤ Scale.sizeHintFixed bits
+    ∧ (Scale.encFixed bits v).length = Scale.maxEncodedLen bits := Scale.encFixed_length bits v hB
+
+theorem scale_fixed_roundtrip (bits v : ℕ) (tail : List ℕ) (hv : v < 2 ^ bits) (hB : nbytes bits < 2 ^ 32) :
+    Scale.decFixed bits (Scale.encFixed bits v ++ tail) = .ok (v, (Scale.encFixed bits v).length) :=
+  Scale.decFixed_enc bits v tail hv hB
+
+/-! ## SSZ, borsh, binary serde: `BYTES` bytes, little- resp. big-endian -/
+
+/-- fixed-width little-endian: exactly `BYTES` bytes denoting `v`. -/
+theorem fixed_le_reference (bits v : ℕ) (hv : v < 2 ^ bits) :
+    (toLE (nbytes bits) v).length = nbytes bits ∧ leVal (toLE (nbytes bits) v) = v ∧ IsBytes (toLE (nbytes bits) v) :=
+  ⟨toLE_length _ _, leVal_toLE_of_lt _ _ (lt_of_lt_of_le hv (two_pow_le_pow_nbytes bits)), toLE_isBytes _ _⟩
+
+/-- fixed-width big-endian (binary serde): exactly `BYTES` bytes denoting `v`. -/
+theorem fixed_be_reference (bits v : ℕ) (hv : v < 2 ^ bits) :
+    (toBE (nbytes bits) v).length = nbytes bits ∧ beVal (toBE (nbytes bits) v) = v ∧ IsBytes (toBE (nbytes bits) v) :=
+  ⟨toBE_length _ _, beVal_toBE_of_lt _ _ (lt_of_lt_of_le hv (two_pow_le_pow_nbytes bits)), toBE_isBytes _ _⟩
+
+/-- `ssz_bytes_len = BYTES` = number of bytes produced. -/
+theorem ssz_bytes_len (bits v : ℕ) : (Fixed.encSsz bits v).length = Fixed.sszBytesLen bits ∧ Fixed.sszBytesLen bits = nbytes bits :=
+  ⟨Fixed.encSsz_length bits v, rfl⟩
+
+theorem ssz_roundtrip (bits v : ℕ) (hv : v < 2 ^ bits) : Fixed.decSsz bits (Fixed.encSsz bits v) = .ok v :=
+  Fixed.decSsz_enc bits v hv
+
+theorem borsh_roundtrip (bits v : ℕ) (tail : List ℕ) (hv : v < 2 ^ bits) :
+    Fixed.decBorshReader bits (Fixed.encBorsh bits v ++ tail) = .ok (v, (Fixed.encBorsh bits v).length)
+    ∧ Fixed.decBorsh bits (Fixed.encBorsh bits v) = .ok v :=
+  ⟨Fixed.decBorshReader_enc bits v tail hv, Fixed.decBorsh_enc bits v hv⟩
+
+theorem serde_binary_roundtrip (bits v : ℕ) (tail : List ℕ) (hv : v < 2 ^ bits) (hB : nbytes bits < 2 ^ 64) :
+    Fixed.visitBytes bits (Fixed.encSerdeBinary bits v) = .ok v
+    ∧ Fixed.decBincode bits (Fixed.encBincode bits v ++ tail) = .ok v :=
+  ⟨Fixed.visitBytes_enc bits v hv, Fixed.decBincode_enc bits v tail hv hB⟩
+
+/-! ## DER -/
+
+/-- the content octets are the minimal two's complement of a non-negative integer: minimal big-endian bytes,
+    preceded by a `00` sign byte exactly when the top bit would be set (or the value is zero). -/
+theorem der_content (v : ℕ) :
+    Der.content v = if v = 0 then [0] else if bitLen v % 8 = 0 then 0 :: beTrim v else beTrim v :=
+  Der.content_eq v
+
+/-- `value_len()` = number of content octets; hence `to_der` (header from `value_len`) is the canonical form. -/
+theorem der_value_len (v : ℕ) : Der.valueLen v = (Der.content v).length ∧ Der.encImpl v = Der.enc v :=
+  ⟨Der.valueLen_eq v, Der.encImpl_eq v⟩
+
+theorem der_roundtrip (bits v : ℕ) (hv : v < 2 ^ bits) (hB : nbytes bits + 1 ≤ 0xfffffff) :
+    Der.dec bits (Der.enc v) = .ok v := Der.dec_enc bits v hv hB
+
+/-! ## limb-array identities: num-bigint, primitive-types, ark-ff, bytemuck -/
+
+theorem limbs_identity (bits v : ℕ) (hv : v < 2 ^ bits) :
+    val (Fixed.limbs bits v) = v ∧ Canon bits (Fixed.limbs bits v) := Fixed.limbs_roundtrip bits v hv
+
+theorem bigint_roundtrip (bits v : ℕ) (hv : v < 2 ^ bits) : Fixed.fromBigInt bits false v = .ok v :=
+  Fixed.fromBigInt_roundtrip bits v hv
+
+/-! ## non-vacuity: concrete encodings computed by the model functions -/
+example : Rlp.enc 1024 = [0x82, 0x04, 0x00] := by decide
+example : Rlp.encImpl 256 1024 = [0x82, 0x04, 0x00] ∧ Rlp.lengthImpl 1024 = 3 := by decide
+example : Rlp.dec 256 [0x82, 0x04, 0x00, 0x5a] = .ok (1024, 3) := by decide
+example : Scale.encCompact 0x3fff = [0xfd, 0xff] ∧ Scale.encCompact 0x4000 = [0x02, 0x00, 0x01, 0x00] := by decide
+example : Scale.encCompact (2 ^ 30) = [0x03, 0, 0, 0, 0x40] := by decide
+example : Der.enc 128 = [0x02, 0x02, 0x00, 0x80] ∧ Der.enc 0 = [0x02, 0x01, 0x00] := by decide
+example : Der.dec 256 [0x02, 0x02, 0x00, 0x80] = .ok 128 := by decide
 
 end Ruint.C16
